@@ -67,6 +67,129 @@ theorem runOp_cellWrite (w : World) (c : TCtl) (ci : Nat) (v : Int) :
           MonadExceptOf.throw]
     · simp [hs, hb, bind, Except.bind, throw, throwThe, MonadExceptOf.throw]
 
+/-! ### `UnsafeCell`: sections that stay open (`cellReadBegin` … `cellReadEnd`, `cellWriteBegin` … `cellWriteEnd`) -/
+
+/-- `start_read` + `track_read` of a section that stays open: one more reader -/
+def cellReadBeginCheck (s : CellSt) (c : VV) : Except Panic CellSt :=
+  if s.isWriting then .error .cellBusy
+  else if ¬ s.writeAccess.le c then .error (.causality 9)
+  else .ok { s with isReading := s.isReading + 1, readAccess := s.readAccess.join c }
+
+/-- `Reading::drop`: the section must be open (`internal 86` otherwise — the DSL program is ill-formed),
+`track_read` again with the causality the thread has NOW, one reader less -/
+def cellReadEndCheck (s : CellSt) (c : VV) : Except Panic CellSt :=
+  if s.isReading == 0 || s.isWriting then .error (.internal 86)
+  else if ¬ s.writeAccess.le c then .error (.causality 9)
+  else .ok { s with isReading := s.isReading - 1, readAccess := s.readAccess.join c }
+
+/-- `start_write` + `track_write` of a section that stays open -/
+def cellWriteBeginCheck (s : CellSt) (c : VV) (v : Int) : Except Panic CellSt :=
+  if s.isReading != 0 || s.isWriting then .error .cellBusy
+  else if ¬ s.writeAccess.le c then .error (.causality 10)
+  else if ¬ s.readAccess.le c then .error (.causality 11)
+  else .ok { s with isWriting := true, writeAccess := s.writeAccess.join c, value := v }
+
+/-- `Writing::drop`: the section must be open (`internal 87` otherwise), `track_write` again -/
+def cellWriteEndCheck (s : CellSt) (c : VV) : Except Panic CellSt :=
+  if !s.isWriting || s.isReading != 0 then .error (.internal 87)
+  else if ¬ s.writeAccess.le c then .error (.causality 10)
+  else if ¬ s.readAccess.le c then .error (.causality 11)
+  else .ok { s with isWriting := false, writeAccess := s.writeAccess.join c }
+
+theorem runOp_cellReadBegin (w : World) (c : TCtl) (ci : Nat) :
+    w.runOp c (.cellReadBegin ci) =
+      (w.sync.getCell (w.cellObj ci) >>= fun s =>
+        cellReadBeginCheck s w.sync.ths.caus >>= fun s' =>
+          pure ((w.sync.setObj (w.cellObj ci) (.cell s')).complete (.val s'.value))) := by
+  unfold World.runOp
+  cases hs : w.sync.getCell (w.cellObj ci) with
+  | error e => simp [hs, bind, Except.bind]
+  | ok s =>
+    unfold cellReadBeginCheck
+    cases hw : s.isWriting
+    · by_cases hle : s.writeAccess.le w.sync.ths.caus
+      · simp [hs, hw, hle, (ahead_isSome_eq_false_iff _ _).2 hle, bind, Except.bind, pure,
+          Except.pure]
+      · simp [hs, hw, hle, (ahead_isSome_iff _ _).2 hle, bind, Except.bind, throw, throwThe,
+          MonadExceptOf.throw]
+    · simp [hs, hw, bind, Except.bind, throw, throwThe, MonadExceptOf.throw]
+
+/-- `.cellReadEnd` is `cellReadEndCheck` applied to the thread's causality as it is — there is no
+`rt::synchronize` increment when a guard drops -/
+theorem runOp_cellReadEnd (w : World) (c : TCtl) (ci : Nat) :
+    w.runOp c (.cellReadEnd ci) =
+      (w.getCell (w.cellObj ci) >>= fun s =>
+        cellReadEndCheck s w.ths.caus >>= fun s' =>
+          pure ((w.setObj (w.cellObj ci) (.cell s')).complete .unit)) := by
+  unfold World.runOp
+  cases hs : w.getCell (w.cellObj ci) with
+  | error e => simp [hs, bind, Except.bind]
+  | ok s =>
+    unfold cellReadEndCheck
+    cases hb : (s.isReading == 0 || s.isWriting)
+    · by_cases hle : s.writeAccess.le w.ths.caus
+      · simp [hs, hb, hle, (ahead_isSome_eq_false_iff _ _).2 hle, bind, Except.bind, pure,
+          Except.pure]
+      · simp [hs, hb, hle, (ahead_isSome_iff _ _).2 hle, bind, Except.bind, throw, throwThe,
+          MonadExceptOf.throw]
+    · simp [hs, hb, bind, Except.bind, throw, throwThe, MonadExceptOf.throw]
+
+theorem runOp_cellWriteBegin (w : World) (c : TCtl) (ci : Nat) (v : Int) :
+    w.runOp c (.cellWriteBegin ci v) =
+      (w.sync.getCell (w.cellObj ci) >>= fun s =>
+        cellWriteBeginCheck s w.sync.ths.caus v >>= fun s' =>
+          pure ((w.sync.setObj (w.cellObj ci) (.cell s')).complete .unit)) := by
+  unfold World.runOp
+  cases hs : w.sync.getCell (w.cellObj ci) with
+  | error e => simp [hs, bind, Except.bind]
+  | ok s =>
+    unfold cellWriteBeginCheck
+    cases hb : (s.isReading != 0 || s.isWriting)
+    · by_cases hle : s.writeAccess.le w.sync.ths.caus
+      · by_cases hle2 : s.readAccess.le w.sync.ths.caus
+        · simp [hs, hb, hle, hle2, (ahead_isSome_eq_false_iff _ _).2 hle,
+            (ahead_isSome_eq_false_iff _ _).2 hle2, bind, Except.bind, pure, Except.pure]
+        · simp [hs, hb, hle, hle2, (ahead_isSome_eq_false_iff _ _).2 hle,
+            (ahead_isSome_iff _ _).2 hle2, bind, Except.bind, throw, throwThe,
+            MonadExceptOf.throw]
+      · simp [hs, hb, hle, (ahead_isSome_iff _ _).2 hle, bind, Except.bind, throw, throwThe,
+          MonadExceptOf.throw]
+    · simp [hs, hb, bind, Except.bind, throw, throwThe, MonadExceptOf.throw]
+
+theorem runOp_cellWriteEnd (w : World) (c : TCtl) (ci : Nat) :
+    w.runOp c (.cellWriteEnd ci) =
+      (w.getCell (w.cellObj ci) >>= fun s =>
+        cellWriteEndCheck s w.ths.caus >>= fun s' =>
+          pure ((w.setObj (w.cellObj ci) (.cell s')).complete .unit)) := by
+  unfold World.runOp
+  cases hs : w.getCell (w.cellObj ci) with
+  | error e => simp [hs, bind, Except.bind]
+  | ok s =>
+    unfold cellWriteEndCheck
+    cases hb : (!s.isWriting || s.isReading != 0)
+    · by_cases hle : s.writeAccess.le w.ths.caus
+      · by_cases hle2 : s.readAccess.le w.ths.caus
+        · simp [hs, hb, hle, hle2, (ahead_isSome_eq_false_iff _ _).2 hle,
+            (ahead_isSome_eq_false_iff _ _).2 hle2, bind, Except.bind, pure, Except.pure]
+        · simp [hs, hb, hle, hle2, (ahead_isSome_eq_false_iff _ _).2 hle,
+            (ahead_isSome_iff _ _).2 hle2, bind, Except.bind, throw, throwThe,
+            MonadExceptOf.throw]
+      · simp [hs, hb, hle, (ahead_isSome_iff _ _).2 hle, bind, Except.bind, throw, throwThe,
+          MonadExceptOf.throw]
+    · simp [hs, hb, bind, Except.bind, throw, throwThe, MonadExceptOf.throw]
+
+theorem getCell_ok {w : World} {o : Nat} {s : CellSt} (h : w.getCell o = .ok s) :
+    w.exec.objs[o]? = some (.cell s) := by
+  unfold World.getCell at h; split at h <;> cases h; assumption
+
+/-- the cell just written is read back, also after `complete` -/
+theorem getCell_setObj_complete {w : World} {o : Nat} {s s' : CellSt} (r : Ret)
+    (h : w.getCell o = .ok s) : ((w.setObj o (.cell s')).complete r).getCell o = .ok s' := by
+  have hlt : o < w.exec.objs.length := (List.getElem?_eq_some_iff.1 (getCell_ok h)).1
+  unfold World.getCell
+  show (match (w.exec.objs.set o (.cell s'))[o]? with | some (.cell a) => _ | _ => _) = _
+  simp [hlt]
+
 /-! ### atomics: `track_*` -/
 
 theorem trackLoad_eq (a : Atomic) (ths : Threads) (hm : a.isMutating = false) :
